@@ -618,9 +618,11 @@ IntegerFloat(v) == LET x == NumOfJ(v) IN IF IsNaN(x) THEN I(0) ELSE IF IsInf(x) 
 ElemErr == PErr("RangeError")
 
 ToReflectValue(v, k) ==
-    LET posFrac == v.t = "num" /\ ~HeldAsInt(v.n) /\ IsFinite(v.n) /\ ~IsNeg(v.n) /\ ~(IsInteger(v.n) \/ IsZero(v.n))
+    LET frac    == v.t = "num" /\ ~HeldAsInt(v.n) /\ IsFinite(v.n) /\ ~(IsInteger(v.n) \/ IsZero(v.n))
+        \* the guard is `frac > 0` on math.Modf: a negative fraction slips through and is truncated
+        posFrac == frac /\ (~IsNeg(v.n) \/ ~D("D16_element_write_negative_fraction_truncated"))
     IN
-    IF k \notin {"float32", "float64", "iface"} /\ posFrac THEN ElemErr        \* math.Modf frac > 0: positive fractions only
+    IF k \notin {"float32", "float64", "iface"} /\ posFrac THEN ElemErr
     ELSE CASE k = "bool" -> POK(GBool(ToBooleanV(AsOps(v))))
       [] k \in {"int8", "int16", "int32", "uint8", "uint16", "uint32"} ->
             LET z == NumberI64(v) IN IF InRangeZ(z, k) THEN POK(GInt(k, ZOfNum(z))) ELSE ElemErr
@@ -653,6 +655,14 @@ ElemConv(v, k) ==
     IN  IF r.thr \in {"TypeError", "RangeError"} /\ D("D16_element_write_error_not_catchable")
         THEN PErr("uncaught:TypeError")                  \* panic(err) on a plain Go error: tryCatchEvaluate cannot wrap it, Run returns a TypeError past every catch
         ELSE r
+
+(* one element write c[0] = v / m.a = v into a bridged []K, [2]K (through a pointer) or map[string]K *)
+(* whose element was old: the outcome and the element afterwards                                    *)
+ElemWriteOutcome(v, k, old) ==
+    LET r == ElemConv(v, k)
+    IN  IF r.thr # "" THEN [thr |-> r.thr, elem |-> old]
+        ELSE IF IsInvalid(r) THEN [thr |-> InvalidErr, elem |-> old]
+        ELSE [thr |-> "", elem |-> r.g]
 
 (* the JavaScript counterpart of what arrived (type-directed G forms) *)
 RECURSIVE ToJSX(_)
@@ -723,6 +733,19 @@ SliceStep(st, op) ==
                  IN  IF lost THEN SR(st, "", IntV(op.n))
                      ELSE IF field THEN SR(grow(grown), "", IntV(op.n))
                      ELSE SR([st EXCEPT !.js = grown, !.done = TRUE], "", IntV(op.n))
+      \* 15.4.4.9 shift and 15.4.4.12 splice(0, 1): the elements move down one place, the last one is deleted, length - 1.
+      \* On a by-value slice the moves and the delete hit the shared elements, only the script's length shrinks.
+      [] op.op \in {"jsshift", "jssplice"} ->
+            IF n = 0 THEN SR(st, "", IF op.op = "jsshift" THEN Undef ELSE JArr(<<>>))
+            ELSE LET ret == IF op.op = "jsshift" THEN ElemJS(st.js[1]) ELSE JArr(<<ElemJS(st.js[1])>>)
+                 IN  IF field THEN SR(both(Tail(st.js)), "", ret)
+                     ELSE SR([st EXCEPT !.go = Tail(st.js) \o <<ZeroElem(st.k)>>, !.js = Tail(st.js), !.done = TRUE], "", ret)
+      \* 15.4.4.13 unshift(v): the elements move up starting with the last (an append), then v is put at index 0
+      [] op.op = "jsunshift" ->
+            LET r == ElemConv(op.v, st.k)
+            IN  IF r.thr # "" \/ IsInvalid(r) THEN SR(st, "unmodelled", Undef)          \* partial moves before the failing put: not generated
+                ELSE IF field THEN SR(grow(<<r.g>> \o st.js), "", IntV(n + 1))
+                ELSE SR([st EXCEPT !.js = <<r.g>> \o st.js, !.done = TRUE], "", IntV(n + 1))   \* the first move reallocates: the Go elements stay
       [] op.op = "gowrite" -> SR(both(Upd(st.go, op.i + 1, op.g)), "", Undef)
       [] op.op = "goappend" -> SR(grow(Append(st.go, op.g)), "", Undef)
 
@@ -852,6 +875,73 @@ StructJS(st) ==
                             IN  Ins([keys |-> InsertAt(acc.keys, p, st.ex.keys[i]), vals |-> InsertAt(acc.vals, p, val)], i + 1)
         all == Ins(base, 1)
     IN  JObj(all.keys, all.vals)
+
+(* ---- containers reached through an addressable parent ------------------------- *)
+(* The harness types                                                               *)
+(*   type Inner struct { Tags []string; Sizes []int8; N int }                      *)
+(*   type Doc struct { Title string; Tags []string; Sizes []int8; Any []interface{}*)
+(*        In Inner; PIn *Inner; Arr [2]int8; SIn []Inner; AIn [2]Inner;            *)
+(*        Grid [][]int8 }                                                          *)
+(* bridged BY POINTER (directly, as an element of a []*Doc, as a value of a        *)
+(* map[string]*Doc).  Abstract: [k |-> "doc", Title, Tags, Sizes, Any, In, PIn,    *)
+(* Arr, SIn, AIn, Grid] with inner = [Tags, Sizes, N]; slices and arrays are        *)
+(* sequences of type-directed element forms.  Everything reachable from the        *)
+(* pointer through fields, nested structs, pointer fields and elements is the live *)
+(* Go object: a length-changing script step on a nested slice must be seen by the  *)
+(* script, by the Go variable and by Export alike; a nested struct or array handed *)
+(* to a Go function taking a pointer arrives as the address of the original. *)
+(* sel names the nested container:                                                 *)
+(*   slices  "Tags" "Sizes" "Any" "In.Tags" "In.Sizes" "PIn.Tags" "PIn.Sizes"       *)
+(*           "Grid0" "Grid1" (x.Grid[i]) "SIn0.Tags" (x.SIn[0].Tags) "AIn0.Tags"     *)
+(*   pointer parameters  "In" "PIn" "Arr" "SIn0" "AIn0"                             *)
+(* otto hands the ELEMENTS of bridged slices and arrays to scripts as copies        *)
+(* (goSliceGetOwnProperty / goArrayGetOwnProperty pass reflectValue.Interface()):   *)
+(* D16_container_elements_bridged_as_copies.                                        *)
+DocElemKind(sel) == CASE sel \in {"Tags", "In.Tags", "PIn.Tags", "SIn0.Tags", "AIn0.Tags"} -> "string"
+                      [] sel = "Any" -> "iface" [] OTHER -> "int8"
+DocSlice(d, sel) ==
+    CASE sel = "Tags" -> d.Tags [] sel = "Sizes" -> d.Sizes [] sel = "Any" -> d.Any
+      [] sel = "In.Tags" -> d.In.Tags [] sel = "In.Sizes" -> d.In.Sizes
+      [] sel = "PIn.Tags" -> d.PIn.Tags [] sel = "PIn.Sizes" -> d.PIn.Sizes
+      [] sel = "Grid0" -> d.Grid[1] [] sel = "Grid1" -> d.Grid[2]
+      [] sel = "SIn0.Tags" -> d.SIn[1].Tags [] sel = "AIn0.Tags" -> d.AIn[1].Tags
+DocSetSlice(d, sel, x) ==
+    CASE sel = "Tags" -> [d EXCEPT !.Tags = x] [] sel = "Sizes" -> [d EXCEPT !.Sizes = x] [] sel = "Any" -> [d EXCEPT !.Any = x]
+      [] sel = "In.Tags" -> [d EXCEPT !.In.Tags = x] [] sel = "In.Sizes" -> [d EXCEPT !.In.Sizes = x]
+      [] sel = "PIn.Tags" -> [d EXCEPT !.PIn.Tags = x] [] sel = "PIn.Sizes" -> [d EXCEPT !.PIn.Sizes = x]
+      [] sel = "Grid0" -> [d EXCEPT !.Grid[1] = x] [] sel = "Grid1" -> [d EXCEPT !.Grid[2] = x]
+      [] sel = "SIn0.Tags" -> [d EXCEPT !.SIn[1].Tags = x] [] sel = "AIn0.Tags" -> [d EXCEPT !.AIn[1].Tags = x]
+IsElementPath(sel) == sel \in {"Grid0", "Grid1", "SIn0.Tags", "AIn0.Tags", "SIn0", "AIn0"}
+CopiedElement(sel) == IsElementPath(sel) /\ D("D16_container_elements_bridged_as_copies")
+
+(* a script step on the nested slice; the script then reads x again (a fresh wrapper): it sees the Go state *)
+DocMutate(d, sel, op) ==
+    LET items == DocSlice(d, sel)
+        stt == [k |-> DocElemKind(sel), mode |-> IF CopiedElement(sel) THEN "value" ELSE "field",
+                go |-> items, js |-> items, done |-> FALSE, cap |-> Len(items)]
+        r == SliceStep(stt, op)
+    IN  [thr |-> r.thr, ret |-> r.ret, d |-> DocSetSlice(d, sel, r.st.go)]
+
+(* x.<sel> passed to a Go function func(p *Inner) { p.N += 10 } / func(p *[2]int8) { p[0], p[1] = 9, 9 } *)
+(* that also reports whether p is the address of the original                                            *)
+Bump(in) == [in EXCEPT !.N = NumAdd(in.N, I(10))]
+DocPtrCall(d, sel) ==
+    IF CopiedElement(sel) THEN [thr |-> "", same |-> FALSE, d |-> d]       \* the callee works on a detached copy
+    ELSE [thr |-> "", same |-> TRUE,
+          d |-> CASE sel = "In" -> [d EXCEPT !.In = Bump(d.In)] [] sel = "PIn" -> [d EXCEPT !.PIn = Bump(d.PIn)]
+                  [] sel = "Arr" -> [d EXCEPT !.Arr = <<GInt("int8", I(9)), GInt("int8", I(9))>>]
+                  [] sel = "SIn0" -> [d EXCEPT !.SIn[1] = Bump(d.SIn[1])] [] sel = "AIn0" -> [d EXCEPT !.AIn[1] = Bump(d.AIn[1])]]
+
+SeqJS(items) == JArr([i \in 1..Len(items) |-> ElemJS(items[i])])
+InnerJS(in) == JObj(<<<<78>>, <<83, 105, 122, 101, 115>>, <<84, 97, 103, 115>>>>, <<NumV(in.N), SeqJS(in.Sizes), SeqJS(in.Tags)>>)     \* N, Sizes, Tags
+DocJS(d) ==
+    JObj(<<<<65, 73, 110>>, S_Any, <<65, 114, 114>>, <<71, 114, 105, 100>>, <<73, 110>>, <<80, 73, 110>>, <<83, 73, 110>>,
+           <<83, 105, 122, 101, 115>>, <<84, 97, 103, 115>>, <<84, 105, 116, 108, 101>>>>,                       \* AIn Any Arr Grid In PIn SIn Sizes Tags Title
+         <<JArr([i \in 1..Len(d.AIn) |-> InnerJS(d.AIn[i])]), SeqJS(d.Any), SeqJS(d.Arr),
+           JArr([i \in 1..Len(d.Grid) |-> SeqJS(d.Grid[i])]), InnerJS(d.In), InnerJS(d.PIn),
+           JArr([i \in 1..Len(d.SIn) |-> InnerJS(d.SIn[i])]), SeqJS(d.Sizes), SeqJS(d.Tags), StrV(d.Title)>>)
+(* what the script sees of x for each placement of the *Doc *)
+PlacedJS(where, d) == CASE where = "ptr" -> DocJS(d) [] where = "inslice" -> JArr(<<DocJS(d)>>) [] where = "inmap" -> JObj(<<<<107>>>>, <<DocJS(d)>>)
 
 (* the observable state after a step *)
 SliceObs(st) == [js |-> JArr([i \in 1..Len(st.js) |-> ElemJS(st.js[i])]), go |-> st.go]
